@@ -91,6 +91,9 @@ macro_rules! rdata_enum {
                 // OPT needs to look the ttl and class values, hence position will be advanced by OPT
                 // parsing code
                 if rdatatype == TYPE::OPT {
+                    if *position + rdatalen + 10 > data.len() {
+                        return Err(crate::SimpleDnsError::InsufficientData);
+                    }
                     return Ok(RData::OPT(OPT::parse(&data[..*position + rdatalen + 10], position)?))
                 }
                 *position += 10;
